@@ -325,7 +325,7 @@ func main() {
 		defaults[c.Unit.ID] = def
 		vals := prep.Validators[c.Index]
 		n := 0
-		for _, doc := range c.Schema.Documents() {
+		for _, doc := range bldrun.DocsFor(c) {
 			if n >= maxDocs {
 				break
 			}
